@@ -8,6 +8,7 @@ import json
 import os
 import re
 import shlex
+import tempfile
 import time
 
 import vlib
@@ -200,7 +201,8 @@ def run_e2e(cases, probes, work, chunk=120, jobs=4):
 def sh_disagreements(cases, work):
     """POSIX sh must split every generated command string into exactly the words of the arguments form.
     -> set of (case id, form index) on which it does not (those renderings are not held against cppcheck)."""
-    script = os.path.join(work, "shwitness.sh")
+    fd, script = tempfile.mkstemp(prefix="shwitness.", suffix=".sh", dir=work)   # called from several threads
+    os.close(fd)
     with open(script, "w") as f:
         for c in cases:
             for k, cmd in enumerate(c["commands"]):
@@ -271,4 +273,4 @@ def gcc_agrees(bad, root_for_gcc):
     want_incs = [os.path.basename(p.rstrip("/")) for p in bad["expected"]["incs"]]
     got_incs = [os.path.basename(p.rstrip("/")) for p in g["incs"]]
     return (want_defs == got_defs and sorted(bad["expected"]["undefs"]) == sorted(g["undefs"]) and want_incs == got_incs
-            and bad["expected"]["std"] == g["std"])
+            and bad["expected"]["std"] == {"c90": "c89"}.get(g["std"], g["std"]))   # gcc spells -std=c89 as c90 for cc1
